@@ -143,7 +143,7 @@ theorem TokStep.prepend {st st1 : LexState} {r : Option Token} {st' : LexState}
 /-- a raw step that returns its token is a `_token` step -/
 theorem TokStep.of_rawStep {st : LexState} {t : Token} {st' : LexState} (h : RawStep st (some t) st') :
     TokStep st (some t) st' := by
-  obtain ⟨hf, s, raw, st1, hraw, hl, hcase⟩ := h
+  obtain ⟨hf, s, raw, st1, hraw, ⟨hl, _, _⟩, hcase⟩ := h
   refine ⟨hf, ?_⟩
   simp only
   have hpos : 0 < raw.value.length := by
@@ -175,7 +175,7 @@ theorem TokStep.of_rawStep_none {st : LexState} {st' : LexState} (h : RawStep st
 theorem rawStep_skip {st : LexState} {t : Token} {st1 : LexState} (h : RawStep st (some t) st1)
     (hty : t.type = "LINE_TERMINATOR" ∨ (st.yieldComments = false ∧ isComment t.type = true)) :
     Frame st st1 ∧ st.lexpos ≤ st1.lexpos ∧ GapText (!st.yieldComments) (slice st.text st.lexpos st1.lexpos) := by
-  obtain ⟨hf, s, raw, st0, hraw, hl, hcase⟩ := h
+  obtain ⟨hf, s, raw, st0, hraw, ⟨hl, _, _⟩, hcase⟩ := h
   have hle := hraw.le
   have hlp := hraw.lexpos
   refine ⟨hf, by omega, ?_⟩
@@ -215,7 +215,10 @@ theorem tokenLoop_spec : ∀ (fuel : Nat) (st : LexState) (r : Option Token) (st
     · split at h
       · split at h
         · simp at h
-        · simp at h
+        · rename_i st1 hg
+          simp at h
+          obtain ⟨rfl, rfl⟩ := h
+          exact TokStep.of_rawStep_none (getUpdateToken_spec _ _ _ hg)
         · rename_i t st1 hg
           have hraw := getUpdateToken_spec _ _ _ hg
           have hyc : st1.yieldComments = st.yieldComments := hraw.1.2.1
